@@ -123,6 +123,7 @@ struct KInner {
     trace: Option<Vec<String>>,
     counters: BTreeMap<String, u64>,
     panics: Vec<String>,
+    hook_panics: Vec<String>,
     parallelism: usize,
     switches: u64,
     time_advances: u64,
@@ -157,6 +158,8 @@ pub struct RunReport {
     pub hash: u64,
     pub choices: Vec<u32>,
     pub panics: Vec<String>,
+    /// every non-expected panic the panic hook saw, including ones caught by a runtime
+    pub hook_panics: Vec<String>,
     pub counters: BTreeMap<String, u64>,
     pub threads: usize,
     pub leaked: usize,
@@ -177,6 +180,13 @@ pub fn install_panic_hook() {
                     .location()
                     .map(|l| format!("{}:{}", l.file(), l.line()))
                     .unwrap_or_default();
+                // Panics that some runtime catches before they reach a simulated thread's root
+                // (tokio tasks) would otherwise go unnoticed: journal every one here.
+                if let Some(msg) = payload_to_string(info.payload())
+                    && let Some((k, _)) = current()
+                {
+                    k.lock().hook_panics.push(format!("{msg} @ {loc}"));
+                }
                 LAST_PANIC_LOC.with(|c| *c.borrow_mut() = Some(loc));
             } else {
                 prev(info);
@@ -778,6 +788,7 @@ pub fn run(setup: RunSetup, main: impl FnOnce() + Send + 'static) -> RunReport {
             trace: if trace { Some(Vec::new()) } else { None },
             counters: BTreeMap::new(),
             panics: Vec::new(),
+            hook_panics: Vec::new(),
             parallelism,
             switches: 0,
             time_advances: 0,
@@ -816,6 +827,7 @@ pub fn run(setup: RunSetup, main: impl FnOnce() + Send + 'static) -> RunReport {
         hash,
         choices: std::mem::take(&mut inner.choices.record),
         panics: inner.panics.clone(),
+        hook_panics: inner.hook_panics.clone(),
         counters: inner.counters.clone(),
         threads: inner.threads.len(),
         leaked,
